@@ -1,10 +1,10 @@
 ID = 'C17'
 UNITS = {'args': dict(wrap='wrap.cc', shim=True, new_block=64, cxxflags=['-DVERIF_UMAP_CAP=6']),
          # split_args: vector<string> of k words needs 32*pow2ceil(k) bytes from operator new
-         'split64': dict(wrap='wrap.cc', shim=True, new_block=64, cxxflags=['-DVERIF_UMAP_CAP=6'], ir2c_flags=['--ptrdiff', '--flat-unions'], gen_defs=['VERIF_NEW_U64', 'VERIF_NEW_ZERO']),
-         'split128': dict(wrap='wrap.cc', shim=True, new_block=128, cxxflags=['-DVERIF_UMAP_CAP=6'], ir2c_flags=['--ptrdiff', '--flat-unions'], gen_defs=['VERIF_NEW_U64', 'VERIF_NEW_ZERO'])}
-UNITS['cls'] = dict(wrap='wrap.cc', shim=True, new_block=320, cxxflags=['-DVERIF_UMAP_CAP=4'], ir2c_flags=['--ptrdiff', '--flat-unions'], gen_defs=['VERIF_NEW_U64', 'VERIF_NEW_ZERO'])
-FAST = []
+         'split64': dict(wrap='wrap.cc', shim=True, new_block=64, cxxflags=['-DVERIF_UMAP_CAP=6'], ir2c_flags=['--ptrdiff', '--flat-unions'], gen_defs=['VERIF_NEW_ZERO']),
+         'split128': dict(wrap='wrap.cc', shim=True, new_block=128, cxxflags=['-DVERIF_UMAP_CAP=6'], ir2c_flags=['--ptrdiff', '--flat-unions'], gen_defs=['VERIF_NEW_ZERO'])}
+UNITS['cls'] = dict(wrap='wrap.cc', shim=True, new_block=320, cxxflags=['-DVERIF_UMAP_CAP=4'], ir2c_flags=['--ptrdiff', '--flat-unions'], gen_defs=['VERIF_NEW_ZERO'])
+FAST = ['--max-field-sensitivity-array-size', '512']
 BOUNDS = ''
 STUBS = []
 OUTSIDE = []
@@ -37,5 +37,5 @@ def queries(tier):
             dd = dict(d, QKIND=qk, QIDX=qi, KLEN=kl)
             qs.append(dict(name='classify_%s_q%d_%d_%d' % ('_'.join(map(str, ls)), qk, qi, kl), unit='cls', harness='h_classify.c', defs=dd, unwind=6, timeout=900, mem_gb=8, flags=FAST,
                            tv_runs=60, desc='classification of %d tokens of lengths %s; query kind %d index %d key length %d' % (nt, ls, qk, qi, kl), bounds='token lengths %s, all byte values but NUL' % (ls,)))
-    qs.append(dict(name='exp3', unit='cls', harness='h_exp.c', defs={'L0': 3}, unwind=6, timeout=900, mem_gb=8, flags=['--verbosity', '8']))
+    qs.append(dict(name='exp3', unit='cls', harness='h_exp.c', defs={'L0': 3}, unwind=6, timeout=900, mem_gb=8, flags=FAST))
     return qs
